@@ -11,7 +11,7 @@
 
 from __future__ import annotations
 
-from vk.core import exc_site
+from vk.core import _h, exc_site
 from vk.engine import hyp_search, parallel
 from vk.ref import cemi_layout as L
 from vk.strategies import cemi as S
@@ -367,10 +367,11 @@ def _shard_both(ctx, n_built: int, n_received: int) -> None:
 def oracle_received_counting_mismatch(ctx, raw: bytes) -> None:
     """oracle_received for frames built to have a length disagreement: those count as non-trivial even when
     (correctly) rejected, since rejection is the behaviour being checked."""
-    before = ctx.evaluations
+    before = ctx.classes["rx:rejected"]
     oracle_received(ctx, raw)
-    if ctx.evaluations == before + 1 and ctx.classes.get("rx:rejected"):
-        ctx.nontrivial.add(hash(raw) & 0xFFFFFFFFFFFF)
+    if ctx.classes["rx:rejected"] == before + 1:
+        ctx.nontrivial.add(_h(raw))
+        ctx.classes["rx:length-mismatch-rejected"] += 1
     ctx.classes["rx:length-mismatch-input"] += 1
 
 
